@@ -42,8 +42,14 @@
 // index 1 (re-votes; late votes of index 1), and the certificate round
 // (2·ACoCHTFrequency: every interleaving of precommits and certificate votes).
 //
+// Both tiers start with the borrowed-signature dimension of forge.go (votes that
+// carry another member's BLS signature, in every order relative to the
+// lender's genuine vote); after every delivery of every scenario the tallies
+// and vote sets the real Voter holds are compared with the reference tally.
+//
 // Environment: VERIF_C03_ONLY=none skips part 1; VERIF_C03_P2_ONLY=<cfg>/<me>
-// keeps the matching scenarios; VERIF_C03_P2_DRY=1 prints the plan sizes.
+// keeps the matching scenarios; VERIF_C03_P2_FORGE=only|off keeps / drops the
+// forge scenarios; VERIF_C03_P2_DRY=1 prints the plan sizes.
 package c03
 
 import (
@@ -105,15 +111,16 @@ func p2InstallHooks(r *mc.Run) {
 
 // p2Spec names one scenario (replay files carry it).
 type p2Spec struct {
-	Cfg    string `json:"cfg"`      // fixture configuration of checks/c01: a | b | b- | c
-	Cert   bool   `json:"cert"`     // certificate round (2·ACoCHTFrequency)
-	RI     uint32 `json:"ri"`       // round index (0 = the fixture's honest round index)
-	Me     string `json:"me"`       // "out" = the node's key is not in the validator set; otherwise the member that runs the node
-	Extras int    `json:"extras"`   // extra messages per case (0..2)
-	Timer  bool   `json:"timer"`    // the step-4 timer is one of the interleaved events
-	Stale  bool   `json:"stale"`    // the node went through the previous round index first; votes of that index are in the alphabet
-	Max    int    `json:"max_msgs"` // certificate scenarios: largest number of interleaved votes (0 = no limit)
-	Full   bool   `json:"full"`     // every order is executed to its end; otherwise an order is executed up to the delivery at which the reference commits, and orders sharing that prefix (identical executions up to the commit) run once
+	Cfg    string `json:"cfg"`             // fixture configuration of checks/c01: a | b | b- | c
+	Cert   bool   `json:"cert"`            // certificate round (2·ACoCHTFrequency)
+	RI     uint32 `json:"ri"`              // round index (0 = the fixture's honest round index)
+	Me     string `json:"me"`              // "out" = the node's key is not in the validator set; otherwise the member that runs the node
+	Extras int    `json:"extras"`          // extra messages per case (0..2)
+	Timer  bool   `json:"timer"`           // the step-4 timer is one of the interleaved events
+	Stale  bool   `json:"stale"`           // the node went through the previous round index first; votes of that index are in the alphabet
+	Max    int    `json:"max_msgs"`        // certificate scenarios: largest number of interleaved votes (0 = no limit)
+	Forge  int    `json:"forge,omitempty"` // borrowed-signature dimension (forge.go): 0 = off, 1 = quick alphabet, 2 = thorough alphabet
+	Full   bool   `json:"full"`            // every order is executed to its end; otherwise an order is executed up to the delivery at which the reference commits, and orders sharing that prefix (identical executions up to the commit) run once
 }
 
 func (s p2Spec) name() string {
@@ -124,6 +131,9 @@ func (s p2Spec) name() string {
 	n += fmt.Sprintf("/ri%d/%s", s.RI, s.Me)
 	if s.Stale {
 		n += "/stale"
+	}
+	if s.Forge > 0 {
+		n += fmt.Sprintf("/forge%d", s.Forge)
 	}
 	if s.Extras > 0 {
 		n += fmt.Sprintf("/x%d", s.Extras)
@@ -188,7 +198,9 @@ var p2Kinds = map[string]ucon.VoteType{"PV": ucon.Prevote, "PC": ucon.Precommit,
 
 // message names: <kind>:<sender>:<block>[:<defect>]   block ∈ A, B (current index), Z (previous index)
 //
-//	defects: claim (weight + 1: the credential does not verify), wrongsig (BLS signature over another payload)
+//	defects: claim (weight + 1: the credential does not verify), wrongsig (BLS signature over another payload),
+//	         sig=<Y> (the sender's own index, credential and envelope, but the BLS signature bytes of member Y's genuine
+//	         vote for the same block, round and index), xsig=<Y> (… of Y's genuine vote for the OTHER block) — forge.go
 //	STEP4 = the step-4 timer fires
 type p2Msg struct {
 	kind   ucon.VoteType
@@ -197,6 +209,7 @@ type p2Msg struct {
 	block  string
 	defect string
 	timer  bool
+	lender *c01.Member // defects sig=<member> / xsig=<member>: whose BLS signature the vote carries (forge.go)
 }
 
 func (s *p2Scn) parse(name string) (p2Msg, error) {
@@ -217,6 +230,9 @@ func (s *p2Scn) parse(name string) (p2Msg, error) {
 	}
 	if len(f) > 3 {
 		m.defect = f[3]
+		if err := s.parseForge(&m, name); err != nil {
+			return m, err
+		}
 	}
 	return m, nil
 }
@@ -271,7 +287,10 @@ func (s *p2Scn) buildWire(name string) ([]byte, error) {
 	case "wrongsig":
 		sv.Signature = c.BlsSign(m.sender, c01.VotePayload(blk.Hash(), round, ri+7))
 	default:
-		return nil, fmt.Errorf("unknown defect in %q", name)
+		if m.lender == nil {
+			return nil, fmt.Errorf("unknown defect in %q", name)
+		}
+		sv.Signature = s.borrowedSig(m, ri)
 	}
 	cd, err := ucon.GetConsensusDataFromHeader(blk.Header())
 	if err != nil {
@@ -804,6 +823,7 @@ type p2Result struct {
 	counts    map[string]int64
 	log       []string
 	committed string
+	tallyBad  map[string]bool // checkTallies: discrepancies already reported in this execution
 }
 
 func (res *p2Result) viol(sig, detail string) {
@@ -842,6 +862,8 @@ func (s *p2Scn) exec(cs *p2Case, res *p2Result, verbose bool) {
 	sawCommit := false    // a CommitEvent was posted
 	missedNoCert := false // certificate round: both quorums present, but the node has no certificate vote of its own to escalate with
 	var ownPC *ucon.SingleVote
+	sigSeen := map[string]string{} // BLS signature bytes -> how the node came to know them: "verified" (carried by a genuine vote it was given) | "own" (produced by the node itself)
+	verdicts := map[string]bool{}  // invalid message -> accepted at its first delivery
 
 	// due: the reference says block must be committed
 	due := func(block string) bool {
@@ -891,6 +913,7 @@ func (s *p2Scn) exec(cs *p2Case, res *p2Result, verbose bool) {
 				}
 				v := *p.msg.Vote
 				ref.votes[c02.KName(p.kind)+":"+s.me.Name+":"+bn] = &v
+				sigSeen[string(v.Signature)] = "own"
 				if ref.count(p.kind, s.me.Name, bn, p.msg.Vote.Votes) != "new" {
 					res.viol("the node voted twice with one kind in one (round, index)", fmt.Sprintf("%s: %s(%s)", event, c02.KName(p.kind), bn))
 				}
@@ -970,9 +993,13 @@ func (s *p2Scn) exec(cs *p2Case, res *p2Result, verbose bool) {
 				res.viol("valid vote rejected by the message handler", m+": "+err.Error())
 			}
 			ref.count(pm.kind, pm.sender.Name, pm.block, s.seats(pm.sender, pm.kind, s.ri))
+			if sv := s.voteOf(m); sv != nil {
+				sigSeen[string(sv.Signature)] = "verified"
+			}
 			logf("  setup %s", m)
 			drain("setup "+m, "")
 		}
+		s.checkTallies(res, ref, x, "the node's own way to its precommit", "", cs)
 		if ownPC != nil {
 			res.count("member node precommitted by itself after a real prevote quorum")
 		}
@@ -1001,15 +1028,42 @@ func (s *p2Scn) exec(cs *p2Case, res *p2Result, verbose bool) {
 		valid := m.valid(s)
 		logf("  %-22s valid=%v handler=%v", name, valid, herr)
 		trigger := ""
+		class := ""
+		if !valid {
+			class = invalidClass(m)
+			if m.lender != nil {
+				// the verdict on a borrowed signature must not depend on what the node saw before: say on which side of the
+				// lender's genuine vote this delivery is
+				class += s.forgeHistory(sigSeen, wire)
+			}
+		}
 		switch {
 		case valid && herr != nil:
 			res.viol("valid vote rejected by the message handler", fmt.Sprintf("%s: %v", name, herr))
 		case !valid && herr == nil:
-			res.viol("invalid vote not rejected: "+invalidClass(m), fmt.Sprintf("%s accepted", name))
+			res.viol("invalid vote not rejected: "+class, fmt.Sprintf("%s accepted; deliveries %v", name, cs.Msgs))
 		case !valid:
-			res.count("invalid vote rejected: " + invalidClass(m))
+			res.count("invalid vote rejected: " + class)
+		}
+		if !valid {
+			first, again := verdicts[name]
+			switch {
+			case !again:
+				verdicts[name] = herr == nil
+			case !first && herr == nil:
+				res.viol("the verdict on one and the same invalid vote message depends on the delivery history (refused at its first delivery, accepted when delivered again): "+invalidClass(m),
+					fmt.Sprintf("%s; deliveries %v", ev, cs.Msgs))
+			case first && herr != nil:
+				res.viol("the verdict on one and the same invalid vote message depends on the delivery history (accepted at its first delivery, refused when delivered again): "+invalidClass(m),
+					fmt.Sprintf("%s; deliveries %v", ev, cs.Msgs))
+			case !first && m.lender != nil && strings.HasSuffix(class, forgeAfter):
+				res.count("forge: one forged message refused at its first delivery and again after the lender's genuine vote (same execution)")
+			}
 		}
 		if valid {
+			if sv := s.voteOf(name); sv != nil {
+				sigSeen[string(sv.Signature)] = "verified"
+			}
 			if m.block == "Z" {
 				res.count("stale-index vote delivered (must not count in the current index)")
 			} else {
@@ -1029,6 +1083,7 @@ func (s *p2Scn) exec(cs *p2Case, res *p2Result, verbose bool) {
 			}
 		}
 		drain(ev, trigger)
+		s.checkTallies(res, ref, x, ev, class, cs)
 	}
 	if !sawCommit {
 		mx := uint32(0)
@@ -1056,6 +1111,8 @@ func (s *p2Scn) exec(cs *p2Case, res *p2Result, verbose bool) {
 
 func invalidClass(m p2Msg) string {
 	switch {
+	case m.lender != nil:
+		return forgeClass(m)
 	case m.defect != "":
 		return m.defect
 	case !m.sender.Entitled():
@@ -1312,6 +1369,9 @@ func p2Plans(quick bool) (specs []p2Spec, defects []string) {
 	if quick {
 		defects = []string{"claim"}
 		specs = []p2Spec{
+			// borrowed-signature dimension (forge.go): every (forger, lender) pair, every order relative to the lender's genuine vote
+			{Cfg: "a", Me: "out", Forge: 1}, // four equal members, any three make the quorum: a counted forged vote completes a quorum
+			{Cfg: "a", Me: "a0", Forge: 1},  // member node: it has verified the others' prevotes (same signature bytes) before its own precommit
 			// outsider node: all four entitled members are senders
 			{Cfg: "b", Me: "out", Extras: 1},  // the whale alone weighs exactly the quorum; B can win
 			{Cfg: "c", Me: "out", Extras: 1},  // four equal members (as in a) + house / offline / zero-stake senders
@@ -1328,6 +1388,14 @@ func p2Plans(quick bool) (specs []p2Spec, defects []string) {
 	defects = []string{"claim", "wrongsig"}
 	// (most valuable first: the internal deadline cuts the tail)
 	specs = []p2Spec{
+		// borrowed-signature dimension (forge.go), every subset of the other members' votes in every form
+		{Cfg: "a", Me: "out", Forge: 2},
+		{Cfg: "a", Me: "a0", Forge: 2},
+		{Cfg: "b-", Me: "b0", Forge: 2}, // the node's own vote is one seat short of the quorum: any counted forged vote commits
+		{Cfg: "b", Me: "b1", Forge: 2},
+		{Cfg: "b", Me: "out", Forge: 2},
+		{Cfg: "b", Cert: true, Me: "b1", Forge: 2}, // certificate round: forged CERTIFICATE votes (the lender's precommit and certificate vote carry the same bytes)
+		{Cfg: "a", Cert: true, Me: "a0", Forge: 2},
 		// every order to its end (deliveries after the commit included), the step-4 timer interleaved
 		{Cfg: "b", Me: "out", Extras: 1, Timer: true, Full: true},
 		{Cfg: "c", Me: "out", Extras: 1, Timer: true},
@@ -1357,14 +1425,24 @@ func part2(r *mc.Run) {
 	p2InstallHooks(r)
 	params.InitNetworkId(params.NetworkIdForTestCase)
 	c01.Quiet()
-	r.Rule += " || PART 2 (real crypto): per fixture of checks/c01 (validator sets a, b [whale alone = quorum], b- [whale one seat short], c [+ house/offline/zero-stake records]) a real node without goroutines (Server+SortitionManager+Proposal+Voter+MessageHandler wired as StartMining does, real credential verification against the committed look-back set) receives real signed wire messages through MessageHandler.HandleMsg: every subset of senders precommitting block A × one extra message (vote of any sender for the competing block B = equivocation or other-block vote; duplicate; over-claimed weight; votes of non-entitled records; thorough: + BLS signature over another payload, the step-4 timer, late votes of the previous round index, pairs of extras, certificate round with every interleaving of precommits and certificate votes) × every distinct delivery order; node = outsider key, or a member whose own precommit is produced by the real Voter after a real prevote quorum; an order is executed up to the delivery at which the reference commits and orders sharing that prefix (identical executions up to the commit) run once (scenarios marked /full: every order to its end); oracle = reference tally of the delivery history (commit exactly when the delivered valid distinct non-equivocating weight reaches floor(0.685·T), attached set exact and verbatim, header packed by c01.PackCommit and by the real Server.commit lists exactly those votes and is accepted by VerifyHeader, VerifySeal and VerifySideChainHeader); distinct = (scenario, subset, variant, executed order)"
+	r.Rule += " || PART 2 (real crypto): per fixture of checks/c01 (validator sets a, b [whale alone = quorum], b- [whale one seat short], c [+ house/offline/zero-stake records]) a real node without goroutines (Server+SortitionManager+Proposal+Voter+MessageHandler wired as StartMining does, real credential verification against the committed look-back set) receives real signed wire messages through MessageHandler.HandleMsg: every subset of senders precommitting block A × one extra message (vote of any sender for the competing block B = equivocation or other-block vote; duplicate; over-claimed weight; votes of non-entitled records; thorough: + BLS signature over another payload, the step-4 timer, late votes of the previous round index, pairs of extras, certificate round with every interleaving of precommits and certificate votes) × every distinct delivery order; node = outsider key, or a member whose own precommit is produced by the real Voter after a real prevote quorum; an order is executed up to the delivery at which the reference commits and orders sharing that prefix (identical executions up to the commit) run once (scenarios marked /full: every order to its end); oracle = reference tally of the delivery history (commit exactly when the delivered valid distinct non-equivocating weight reaches floor(0.685·T), attached set exact and verbatim, header packed by c01.PackCommit and by the real Server.commit lists exactly those votes and is accepted by VerifyHeader, VerifySeal and VerifySideChainHeader); distinct = (scenario, subset, variant, executed order) || PART 2 borrowed-signature dimension (forge.go, BLS on: the signer is looked up by VoterIdx and the signed payload hash‖round‖index names neither signer nor vote kind): for EVERY ordered pair (forger X, lender Y) of seat holders (Y also the node itself when it is a member) the forged precommits 'X's own index, sortition credential and envelope + the BLS signature bytes of Y's genuine vote for the same (block, round, index)' and '... of Y's genuine vote for the other block' (both directions), interleaved in EVERY order with Y's genuine precommit (before it, after it, the same forged message twice = both), with Y's prevote instead (the other vote kind carries the same bytes), with X's own genuine precommit, and with every subset (quick: in the cross-block / other-kind forms subsets of size <= 1, in the twice / own-genuine forms the empty subset) of the other members' genuine precommits; oracles: a forged vote is refused on either side of the lender's vote, the verdict on one message never changes between two deliveries, after EVERY delivery of every part-2 scenario the tallies and vote sets the real Voter holds equal the reference tally of the delivery history, and every CommitEvent passes the checks above (real verifiers accept the packed header)"
 	r.Assume("part 2: credentials are real (VRF sortition proofs, BLS vote signatures and ECDSA envelopes produced with the fixture's keys and verified by the production code against the fixture's committed look-back validator set)")
+	r.Assume("part 2, forged votes: the forger is a committee member with a seat (its sortition credential and envelope are genuine) and has seen the lender's genuine vote on the gossip network; it cannot produce a signature under a key it does not hold")
 	r.Assume("part 2: the harness plays the event mux synchronously (one handler call = one atomic step); the competing block B is a second proposal of the same proposer (equivocating proposer); message timestamps are fixed")
 	specs, defects := p2Plans(r.Quick())
 	if only := os.Getenv("VERIF_C03_P2_ONLY"); only != "" {
 		var f []p2Spec
 		for _, s := range specs {
 			if strings.HasPrefix(s.Cfg+"/"+s.Me, only) {
+				f = append(f, s)
+			}
+		}
+		specs = f
+	}
+	if fo := os.Getenv("VERIF_C03_P2_FORGE"); fo != "" { // only | off
+		var f []p2Spec
+		for _, s := range specs {
+			if (s.Forge > 0) == (fo == "only") {
 				f = append(f, s)
 			}
 		}
@@ -1382,9 +1460,13 @@ func part2(r *mc.Run) {
 			r.HarnessError("part2 scenario " + sp.name() + ": " + err.Error())
 			continue
 		}
-		if sp.Cert {
+		var fst *forgeStats
+		switch {
+		case sp.Forge > 0:
+			fst = s.generateForge()
+		case sp.Cert:
 			s.generateCert()
-		} else {
+		default:
 			s.generate(defects)
 		}
 		if err := s.prepareWires(); err != nil {
@@ -1392,6 +1474,24 @@ func part2(r *mc.Run) {
 			continue
 		}
 		all = append(all, s.cases...)
+		if fst != nil {
+			n, err := s.checkBorrowed(fst.forged)
+			if err != nil {
+				r.HarnessError("part2 scenario " + sp.name() + ": forged alphabet: " + err.Error())
+				continue
+			}
+			r.Count("p2 forge: (forger, lender) ordered pairs enumerated", int64(fst.pairs))
+			r.Count("p2 forge: distinct forged messages (each checked: signature bytes = the lender's genuine ones, verify under the lender's key, fail under the forger's key, rest of the vote = the forger's genuine one)", int64(n))
+			forms := map[string]interface{}{}
+			for f, k := range fst.forms {
+				r.Count("p2 forge: delivery orders of form "+f, int64(k))
+				forms[f] = k
+			}
+			orders += s.orders
+			scnInfo[s.spec.name()] = map[string]interface{}{"delivery_orders": s.orders, "round": s.c.Round, "round_index": s.ri, "quorum": s.q, "node": s.me.Name,
+				"forger_lender_pairs": fst.pairs, "forged_messages": n, "orders_per_form": forms, "cases": len(s.cases)}
+			continue
+		}
 		// subset classes (vacuity: which side of the quorum the subsets are on), own vote included
 		own := uint32(0)
 		if s.member {
